@@ -188,8 +188,11 @@ def direct_verdicts(months, zero_hour, line, M, fixed, totals):
         # absent peaks still carry the 1e-6 h placeholder duration in the divisor of the monthly rate: a legitimate
         # term of at most 2e-6 h x |monthly rate| on top of floating-point accuracy (1e-8 of the month's absolute energy)
         rate = max([abs(Fraction(q)) for k, _, q in segs if k == "avg"] or [Fraction(0)])
-        if abs(e - want) > scale * Fraction(1, 10**8) + rate * Fraction(2, 10**6) and not clamped:
-            v["Conserves"] = False
+        if abs(e - want) > scale * Fraction(1, 10**8) + rate * Fraction(2, 10**6):
+            if clamped:
+                v["F14_seen"] = True     # the listed finding: clamped first-month pulse
+            else:
+                v["Conserves"] = False
         kinds = [k for k, _, _ in segs]
         if not ipf and any(k != "avg" for k in kinds):
             v["PeaksOnlyInRetentionMonths"] = False
@@ -418,6 +421,8 @@ def replay(chk: Check, invs, fixed=None):
             chk.nontrivial.add((line["special"]["pkc"], line["special"]["pkh"], line["special"]["dayC"], line["special"]["dayH"],
                                 line["special"]["dc"], line["special"]["dh"], line["special"]["wc"], line["special"]["wh"], line["M"] > 24))
             falses = [n for n in names if r["verdict"].get(n) is False]
+            if r["verdict"].get("F14_seen"):
+                chk.violation("F14 on real code", None, known_key="F14")
             info = {"level": level, "M": line["M"], "slot": line["slot"], "special": line["special"], "mismatch": r["mismatch"], "false": falses}
             if falses:
                 viol.append(info)
@@ -440,6 +445,11 @@ def run(pid: str) -> int:
     for f in found:
         chk.violation(f"HybridLoads.tla invariant {f['invariant']} violated", f)
     # is the listed finding F14 still present on the model?  (a violated F14Present means it is)
+    t = tier()
+    mod, consts = mc(input_classes(t), horizons(t), FIXED)
+    r14 = run_tlc("MC_Hybrid", "INIT Init\nNEXT Next\nCHECK_DEADLOCK FALSE\n" + consts + "INVARIANT F14Present\n",
+                  extra_modules={"MC_Hybrid.tla": mod}, want_prints=False, timeout=3000)
+    chk.note("F14_present_on_model", r14.violated == "F14Present")
     viol, drift = replay(chk, INVS[pid])
     for v in viol[:10]:
         chk.violation(f"{pid}: real hybrid loads violate {v['false']} (level {v['level']}, M={v['M']}, slot={v['slot']}, input {v['special']})", v)
